@@ -293,6 +293,14 @@ func (g *EG) illTyped(want cty.Type, depth int) ast.Node {
 				}
 				return ast.Index{Coll: p.node, Key: ast.Num{Text: idx}}
 			}
+			if (p.ty.IsObjectType() || p.ty.IsMapType()) && g.chance(3, "boolkey") {
+				// a literal bool / null index key: a traversal step whose key is neither string nor number
+				g.feat("ill_bool_or_null_index_key")
+				if g.chance(2, "nullkey") {
+					return ast.Index{Coll: p.node, Key: ast.Null{}}
+				}
+				return ast.Index{Coll: p.node, Key: ast.Bool{V: g.chance(2, "truekey")}}
+			}
 			if p.ty.IsObjectType() || p.ty.IsMapType() {
 				g.feat("ill_missing_attr")
 				if g.chance(2, "viaindex") {
